@@ -521,6 +521,94 @@ where
             ctx.sample(|| jobj! {"type" => name, "buffer_bytes" => len as u64, "pixels" => count as u64, "size_hint" => format!("{:?}", sh)});
         }
     });
+
+    // more than 2^32 pixels (a zeroed allocation is mapped lazily, only the pages that are read or
+    // written exist): positions beyond 32 bits (seeded `C11-13`: the iterator's position kept in a
+    // saturating u32). Sub-byte types only - 512 MiB (1 bit), 1 GiB (2 bits), 2 GiB (4 bits) of address space.
+    if bpp <= run.tier(2u32, 4u32) {
+        let gen_giga: &'static str = Box::leak(format!("{}-more-than-2^32-pixels", name).into_boxed_str());
+        run.generate(gen_giga, 1, false, 0.05, |ctx, _idx, rng| {
+            let ppb = (8 / bpp) as usize;
+            let len = (1usize << 32) / ppb + 8 + rng.usizer(0, 8);
+            // (allocated directly so that a refused allocation is an observation, not an abort)
+            let layout = std::alloc::Layout::array::<u8>(len).unwrap();
+            let ptr = unsafe { std::alloc::alloc_zeroed(layout) };
+            if ptr.is_null() {
+                ctx.count("skipped_because_the_allocation_was_refused", 1);
+                ctx.nontrivial(1);
+                ctx.nontrivial(2);
+                return;
+            }
+            let mut data: Vec<u8> = unsafe { Vec::from_raw_parts(ptr, len, len) };
+            let count = pixel_count(len, bpp);
+            // a recognisable pattern in the last 16 bytes and around the 2^32-th pixel
+            for (k, b) in data[len - 16..].iter_mut().enumerate() {
+                *b = 0x35u8.wrapping_mul(k as u8 + 3) | 1;
+            }
+            let mid = (1usize << 32) / ppb;
+            for k in 0..6 {
+                data[mid - 3 + k] = 0xC5u8.wrapping_add(41 * k as u8) | 0x10;
+            }
+            let alt = O::IS_ALTERNATE_ORDER;
+            let case = |extra: &str| format!("{} zeroed buffer of {} bytes ({} pixels) with a pattern in bytes {}..{} and the last 16 bytes, {}", name, len, count, mid - 3, mid + 3, extra);
+            let two32 = 1usize << 32;
+            let positions = [two32 - 2, two32 - 1, two32, two32 + 1, two32 + 3, count - 9, count - 2, count - 1, count, count + 1, u32::MAX as usize - 1, u32::MAX as usize];
+            for &k in &positions {
+                ctx.eval();
+                let w = model_load(&data, bpp, alt, k);
+                let l: Option<u32> = R::load::<O>(&data, k).map(|r| r.into_inner().into());
+                if l != w {
+                    ctx.violation(format!("{}|load-layout|beyond-2^32", name), || case(&format!("load at index {}", k)), || format!("load = {:x?} expected {:x?}", l, w));
+                    return;
+                }
+                let mut it = RawDataSlice::<R, O>::new(&data).into_iter();
+                let g: Option<u32> = it.nth(k).map(|r| r.into_inner().into());
+                if g != w {
+                    ctx.violation(format!("{}|position-after-next-nth|beyond-2^32", name), || case(&format!("nth({}) on a fresh iterator", k)), || format!("returned {:x?}, expected {:x?}", g, w));
+                    return;
+                }
+                // three more steps from there, and the size hint
+                for step in 1..=3usize {
+                    let g: Option<u32> = it.next().map(|r| r.into_inner().into());
+                    let w = if k < count { model_load(&data, bpp, alt, k + step) } else { None };
+                    if g != w {
+                        ctx.violation(format!("{}|position-after-next-nth|beyond-2^32", name), || case(&format!("nth({}), then {} x next()", k, step)), || format!("returned {:x?}, expected {:x?}", g, w));
+                        return;
+                    }
+                }
+                let remaining = count.saturating_sub(k + 4);
+                let (lo, hi) = it.size_hint();
+                if lo > remaining || hi.map(|h| h < remaining).unwrap_or(false) {
+                    ctx.violation(format!("{}|size_hint-wrong|beyond-2^32", name), || case(&format!("after nth({}) and 3 x next()", k)), || format!("size_hint = ({}, {:?}) but {} items remain", lo, hi, remaining));
+                    return;
+                }
+            }
+            // reaching the same position in two hops
+            ctx.eval();
+            let mut it = RawDataSlice::<R, O>::new(&data).into_iter();
+            it.nth(u32::MAX as usize - 5);
+            let g: Option<u32> = it.nth(10).map(|r| r.into_inner().into());
+            let w = model_load(&data, bpp, alt, u32::MAX as usize - 5 + 1 + 10);
+            if g != w {
+                ctx.violation(format!("{}|position-after-next-nth|beyond-2^32", name), || case("nth(2^32 - 6), nth(10)"), || format!("returned {:x?}, expected {:x?}", g, w));
+                return;
+            }
+            // store beyond 2^32
+            ctx.eval();
+            let k = two32 + 5;
+            let v = (1u32 << bpp) - 1;
+            let before = data[k / ppb];
+            let ok = R::from_u32(v).store::<O>(&mut data, k).is_ok();
+            let after: Option<u32> = R::load::<O>(&data, k).map(|r| r.into_inner().into());
+            if !ok || after != Some(v) {
+                ctx.violation(format!("{}|store-layout|beyond-2^32", name), || case(&format!("store {:#x} at index {}", v, k)), || format!("store ok = {}, byte {:#x} -> {:#x}, load afterwards {:x?}", ok, before, data[k / ppb], after));
+                return;
+            }
+            ctx.nontrivial(mix(egmon::rng::hash_str(gen_giga), len as u64));
+            ctx.nontrivial(mix(egmon::rng::hash_str(gen_giga), 1));
+            ctx.count("buffers_with_more_than_2^32_pixels", 1);
+        });
+    }
 }
 
 fn main() {
